@@ -489,38 +489,41 @@ inductive Pc (σ : Type)
 structure Sys (σ : Type) where
   shared : σ                 -- the atomic.Value
   mu : Option Nat            -- the holder of the mutex
-  pcs : List (Pc σ)          -- one program counter per thread (thread i runs `fs[i]`)
+  pcs : Nat → Pc σ           -- one program counter per thread (thread i runs `fs i`)
 
-/-- one atomic step of thread `i` (a step that is not enabled — the mutex is taken, the thread is done,
+/-- one atomic step of thread `i` of `n` (a step that is not enabled — the mutex is taken, the thread is done,
 no such thread — leaves the system as it is) -/
-def step {σ : Type} (locked : Bool) (fs : List (σ → σ)) (s : Sys σ) (i : Nat) : Sys σ :=
-  match s.pcs[i]?, fs[i]? with
-  | some pc, some f =>
-    match pc with
-    | .idle =>
-      if locked then (if s.mu.isNone then { s with mu := some i, pcs := s.pcs.set i .locked } else s)
-      else { s with pcs := s.pcs.set i (.loaded s.shared) }
-    | .locked => { s with pcs := s.pcs.set i (.loaded s.shared) }
-    | .loaded snap =>
-      if locked then { s with pcs := s.pcs.set i (.computed (f snap)) }
-      else { s with pcs := s.pcs.set i (.waiting (f snap)) }
-    | .waiting new => if s.mu.isNone then { s with mu := some i, pcs := s.pcs.set i (.computed new) } else s
-    | .computed new => { s with shared := new, pcs := s.pcs.set i .stored }
-    | .stored => { s with mu := none, pcs := s.pcs.set i .done }
-    | .done => s
-  | _, _ => s
+def step {σ : Type} (locked : Bool) (n : Nat) (fs : Nat → σ → σ) (s : Sys σ) (i : Nat) : Sys σ :=
+  let set (v : Pc σ) : Nat → Pc σ := fun j => if j = i then v else s.pcs j
+  if n ≤ i then s else
+  match s.pcs i with
+  | .idle =>
+    if locked then (if s.mu.isNone then { s with mu := some i, pcs := set .locked } else s)
+    else { s with pcs := set (.loaded s.shared) }
+  | .locked => { s with pcs := set (.loaded s.shared) }
+  | .loaded snap =>
+    if locked then { s with pcs := set (.computed (fs i snap)) }
+    else { s with pcs := set (.waiting (fs i snap)) }
+  | .waiting new => if s.mu.isNone then { s with mu := some i, pcs := set (.computed new) } else s
+  | .computed new => { s with shared := new, pcs := set .stored }
+  | .stored => { s with mu := none, pcs := set .done }
+  | .done => s
 
-def init {σ : Type} (x : σ) (n : Nat) : Sys σ := ⟨x, none, List.replicate n .idle⟩
+def init {σ : Type} (x : σ) : Sys σ := ⟨x, none, fun _ => .idle⟩
 
 /-- run a schedule (the thread chosen at every step) -/
-def run {σ : Type} (locked : Bool) (fs : List (σ → σ)) (s : Sys σ) (sched : List Nat) : Sys σ :=
-  sched.foldl (step locked fs) s
+def run {σ : Type} (locked : Bool) (n : Nat) (fs : Nat → σ → σ) (s : Sys σ) (sched : List Nat) : Sys σ :=
+  sched.foldl (step locked n fs) s
 
 def Pc.isDone {σ : Type} : Pc σ → Bool
   | .done => true
   | _ => false
 
-def Sys.allDone {σ : Type} (s : Sys σ) : Bool := s.pcs.all Pc.isDone
+/-- every call has returned -/
+def Sys.allDone {σ : Type} (s : Sys σ) (n : Nat) : Bool := (List.range n).all (fun i => (s.pcs i).isDone)
+
+/-- the calls applied one after the other in the given order -/
+def seq {σ : Type} (fs : Nat → σ → σ) (order : List Nat) (x : σ) : σ := order.foldl (fun acc i => fs i acc) x
 
 end Cow
 
